@@ -328,9 +328,62 @@ def oracle(ctx, deep=False):
     import tea_tasting.config as C
     C._global_config.clear()
     C._global_config.update(DEFAULTS)
+    grid_oracle(ctx)
+
+
+GRID_VALUES = {"alpha": [0.01, 0.1, 0.5], "power": [0.5, 0.9, 0.99], "confidence_level": [0.5, 0.9, 0.99],
+               "alternative": ["two-sided", "greater", "less"], "equal_var": [True, False], "use_t": [True, False],
+               "n_obs": [100, (100, 200), 7], "n_resamples": [7, 100, 10_000], "ratio": [0.5, 1, 2.5]}
+
+
+def grid_case(cls_name, opt, g, e):
+    """explicit argument wins over the global value g, for EVERY constructor x option x pair of valid values (falsy ones
+    included); without the argument the value in force at construction is captured and kept"""
+    import tea_tasting as tt
+    cls = getattr(tt, cls_name)
+    args = {"Mean": ("x",), "RatioOfMeans": ("x", "y"), "Bootstrap": ("x", _stat), "Quantile": ("x",), "SampleRatio": ()}[cls_name]
+    fails = []
+    with tt.config_context(**{opt: g}):
+        m_explicit = cls(*args, **{opt: e})
+        m_default = cls(*args)
+    same = lambda a, b: a == b and type(a) is type(b) or (isinstance(a, (int, float)) and isinstance(b, (int, float)) and a == b)
+    if not same(getattr(m_explicit, opt), e):
+        fails.append(f"{cls_name}({opt}={e!r}) under global {opt}={g!r} has {opt}={getattr(m_explicit, opt)!r}")
+    if not same(getattr(m_default, opt), g):
+        fails.append(f"{cls_name}() constructed under global {opt}={g!r} has {opt}={getattr(m_default, opt)!r} after the context")
+    return fails
+
+
+def _stat(x, axis=-1):
+    import numpy as np
+    return np.mean(x, axis=axis)
+
+
+def grid_oracle(ctx):
+    import inspect
+    import tea_tasting as tt
+    for cls_name in ("Mean", "RatioOfMeans", "Bootstrap", "Quantile", "SampleRatio"):
+        params = inspect.signature(getattr(tt, cls_name).__init__).parameters
+        for opt, vals in GRID_VALUES.items():
+            if opt not in params or params[opt].default is not None:
+                continue    # only options documented as "None = take the global default" come from the configuration
+            for g in vals:
+                for e in vals:
+                    if g == e:
+                        continue
+                    fails = grid_case(cls_name, opt, g, e)
+                    ctx.evaluations += 1
+                    ctx.count("oracle:explicit-wins-grid")
+                    for f in fails:
+                        ctx.violations.append({"what": "explicit constructor argument / captured default: " + f.split(" has ")[0][:70],
+                                               "detail": f, "input": {"grid": [cls_name, opt, g, e]}})
 
 
 def replay(ctx, rp):
+    if "grid" in rp["input"]:
+        cls_name, opt, g, e = rp["input"]["grid"]
+        fails = grid_case(cls_name, opt, tuple(g) if isinstance(g, list) else g, tuple(e) if isinstance(e, list) else e)
+        return {"fails": bool(fails), "failures": fails}
     pool = make_pool()
     ops = eval(rp["input"]["ops"], {"nan": float("nan")})
     cfg, recs, out, trace = run_real(pool, ops)
